@@ -448,6 +448,12 @@ def pack_into_passes(nng, arch, verbose_packing=False):
             ):
                 return False
 
+            # A TRANSPOSE is realised by swapping the height/width strides of the OFM feature map of its own output tensor
+            # (create_feature_map looks at the producer of the OFM tensor and forces that tensor to linear format). A post
+            # operation packed into the same pass would replace the OFM tensor and the transposition would be lost.
+            if next_op.original_type == Op.Transpose:
+                return False
+
             for outp in next_op.outputs:
                 consumers = outp.consumers()
                 if len(consumers) > 1 or (len(consumers) == 1 and consumers[0] != curr_op):
